@@ -72,7 +72,11 @@ CHECKS["C20"] = ("proof", "callee allow-list, branch-source rule and argument/re
                  "For all requests: each extractor only calls the framework's own extractor, deserr::deserialize::<T, serde_json::Value, E>, its wrapper constructor and ?/poll plumbing, and only branches on their outcomes; the framework extractor receives the request / query string unchanged, deserialize receives exactly the extracted document, Ok is exactly the wrapped deserr value, every error is the framework's or deserr's own value passed on through `?`/From; JsonError answers 400 with its message as body in both frameworks; the axum rejection wraps and delegates per variant.",
                  TB + "; the frameworks' own extractors, conversions and IntoResponse impls are trusted (content-type handling, limits not analysed)", "§5 C20")
 
-NOT_YET = {p: 'check not yet built in this revision of /verif (construction order in DESIGN.md §8); will be claimed when its rule set is armed' for p in ['C14']}
+CHECKS["C14"] = ("other", "dependence (taint through format arguments and helper calls) and decision-table rules over the MIR of the two built-in error types and their helpers",
+                 "Decides dependence and structure, not wording: per ErrorKind arm of JsonError::error and QueryParamError::error the message's format arguments depend on every field the arm binds and on the location description of this call's location; unknown key/value messages call did_you_mean(key|value, accepted) and list all of accepted; arity messages state the length and quote the whole sequence; location rendering is {Origin: nothing, Key: ancestors then .key, Index: ancestors then [index]} with the query variant omitting the separator exactly under the origin; kind and quoted text come from the same value; foreign errors become Unexpected{their text} at the merge location; all answers are Break.",
+                 TB + "; std formatting prints every argument; wording/punctuation and re-parseability of the rendered path are not decided; 'first report of the keep-going run' follows from C03 + C04", "§5 C14")
+
+NOT_YET = {p: 'check not yet built in this revision of /verif (construction order in DESIGN.md §8); will be claimed when its rule set is armed' for p in []}
 
 
 def main():
